@@ -3,12 +3,16 @@
    dagrt/builtins_python.py + Python/numpy arithmetic produce (C09).
 
    Definitions only (no proofs).  The model mirrors the Python line by line, defects
-   included; three recognisable source shapes are parameters (record [cfg], filled from
+   included; six recognisable source shapes are parameters (record [cfg], filled from
    coq/gen/GenC09.v):
      pow_fix   : KindInferenceMapper.map_power returns a kind (false: no return statement)
      new_marks : SymbolKindTable.set marks the table changed when it adds a NEW entry
      conflict_raises : SymbolKindTable.set re-raises a failing unify after printing its message
      isnan_any : builtin_isnan reduces with .any()  (false: elementwise numpy.isnan)
+     finder_restarts : SymbolKindFinder.__call__ leaves the work-list loop for another pass instead of
+                 giving up when a retry sweep made no progress but the table changed (false: gives up)
+     need_arrays : MatMul/Transpose/LinearSolve/SVD.get_result_kinds are unable to infer a kind unless
+                 their matrix arguments are Arrays (false: they read .is_real_valued of any kind)
 
    Scope: expressions built from constants, variables, sums, products, quotients, powers,
    comparisons, and/or/not, min/max, subscripts and calls (positional and keyword
@@ -292,6 +296,29 @@ Definition call_kinds_gen (rk : fsig -> list okind -> option (list kind))
 
 Definition call_kinds (check : bool) := call_kinds_gen (result_kinds check).
 
+(* MatMul / Transpose / LinearSolve / SVD since 47d5901: after the `is None` test and the check=True
+   TypeErrors,
+       if not (isinstance(a_kind, Array) [and isinstance(b_kind, Array)]):
+           raise UnableToInferKind(...)
+   [matrix_arrays] is that test (true for every other function and for a wrong number of arguments,
+   which [result_kinds] answers with None anyway). *)
+Definition matrix_arrays (s : fsig) (a : list okind) : bool :=
+  match s, a with
+  | FMatMul, [x; y; _; _] | FLinSolve, [x; y; _; _] => is_array_k x && is_array_k y
+  | FTranspose, [x; _] | FSvd, [x; _] => is_array_k x
+  | _, _ => true
+  end.
+
+(* get_result_kinds(arg_kinds, check=False), the call kind inference makes.  [na] = the four matrix
+   built-ins have the test above (false: they read `.is_real_valued` of whatever kind they are handed, so
+   a Scalar argument yields an Array and only Integer / Boolean / UserType end in an AttributeError).
+   The test is not observable with check=True ([result_kinds true] is the same function for both shapes):
+   the TypeErrors raised before it already demand Arrays, and every exception is a None here. *)
+Definition result_kinds_infer (na : bool) (s : fsig) (a : list okind) : option (list kind) :=
+  if na && negb (matrix_arrays s a) then None else result_kinds false s a.
+
+Definition call_kinds_infer (na : bool) := call_kinds_gen (result_kinds_infer na).
+
 (* ------------------------------------------------------------------ KindInferenceMapper *)
 
 Definition tbl := list (string * okind).
@@ -342,7 +369,9 @@ Record cfg := mkCfg {
   new_marks : bool;
   isnan_any : bool;
   conflict_raises : bool;
-  st_exact : list string;       (* is_state_variable: literal names *)
+  finder_restarts : bool;       (* SymbolKindFinder.__call__: `if result.is_changed(): break` before giving up *)
+  need_arrays : bool;           (* matmul/transpose/linear_solve/svd infer a kind only from Array arguments *)
+  st_exact : list string;      (* is_state_variable: literal names *)
   st_prefixes : list string     (* is_state_variable: prefixes *)
 }.
 
@@ -358,7 +387,7 @@ Section Mapper.
     | Some s =>
         match arg_kinds rs with
         | Err e => Err e
-        | Ok aks => match call_kinds false s aks kwn with
+        | Ok aks => match call_kinds_infer (need_arrays C) s aks kwn with
                     | None => Err UnableToInferKind
                     | Some ks => Ok ks
                     end
@@ -505,7 +534,7 @@ Section Finder.
         end
     | SCall xs f args kwn =>
         let L := local_of T ph in
-        match kcall reg f (map (kmap C reg (sg T) L) args) kwn with
+        match kcall C reg f (map (kmap C reg (sg T) L) args) kwn with
         | Err UnableToInferKind => SRetry T
         | Err e => SFail e
         | Ok ks => let T2 := set_many C T ph xs ks in
@@ -528,7 +557,7 @@ Section Finder.
             | Ok _ => AssertionError
             end
         | SCall _ f args kwn =>
-            match kcall reg f (map (kmap C reg (sg T) L) args) kwn with
+            match kcall C reg f (map (kmap C reg (sg T) L) args) kwn with
             | Err UnableToInferKind => diagnose r T
             | Err e => e
             | Ok _ => AssertionError
@@ -548,6 +577,9 @@ Section Finder.
             match buf with
             | [] => Ok T
             | _ => if prog then inner f buf [] false T
+                   else if finder_restarts C && schanged T then Ok T
+                        (* `if result.is_changed(): break` (c2c8c5a): leaves the work-list loop with
+                           statements left over; the change flag is set, so [outer] starts the next pass *)
                    else Err (diagnose (rev buf) T)
             end
         | (ph, s) :: q' =>
@@ -587,7 +619,7 @@ Section Finder.
             | Ok _ => final_stmts T L r
             end
         | SCall xs f args kwn =>
-            match kcall reg f (map (kmap C reg (sg T) L) args) kwn with
+            match kcall C reg f (map (kmap C reg (sg T) L) args) kwn with
             | Err e => Some e
             | Ok _ =>
                 match rlookup reg f with
@@ -1076,7 +1108,7 @@ Definition strict_stmt (C : cfg) (reg : registry) (T : skt) (ph : string) (s : s
        | None => false
        end && side_ok C reg G L rhs)
   | SCall xs f args kwn =>
-      match kcall reg f (map (kmap C reg G L) args) kwn with
+      match kcall C reg f (map (kmap C reg G L) args) kwn with
       | Ok ks => entries_le T ph xs ks
       | Err _ => false
       end && forallb (side_ok C reg G L) args && call_ok C reg G L f args kwn
@@ -1146,7 +1178,7 @@ Definition sides_stmt (C : cfg) (reg : registry) (T : skt) (ph : string) (s : st
        | None => false
        end && side_ok C reg G L rhs)
   | SCall xs f args kwn =>
-      match kcall reg f (map (kmap C reg G L) args) kwn with
+      match kcall C reg f (map (kmap C reg G L) args) kwn with
       | Ok ks => aggs_ok T ph xs ks
       | Err _ => false
       end && forallb (side_ok C reg G L) args && call_ok C reg G L f args kwn
